@@ -6,6 +6,7 @@ import (
 
 	"github.com/cockroachdb/pebble/internal/base"
 	"github.com/cockroachdb/pebble/internal/keyspan"
+	"github.com/cockroachdb/pebble/internal/manifest"
 	"github.com/cockroachdb/pebble/internal/treesteps"
 	sym "github.com/cockroachdb/pebble/internal/verifsym"
 )
@@ -27,6 +28,12 @@ const (
 )
 
 const hKeyLo, hKeyHi = byte('a'), byte('c') // the user-key alphabet
+
+// hKeyPrefix is prepended to every user key (the model works on the last byte). It is empty
+// except where a harness wants keys that agree in their first 8 bytes (abbreviated keys).
+var hKeyPrefix []byte
+
+func hKeyBytes(k byte) []byte { return append(append([]byte(nil), hKeyPrefix...), k) }
 
 type hWrite struct {
 	kind     base.InternalKeyKind // symbolic
@@ -213,7 +220,7 @@ func hBuildLevels(h []hWrite, L int) []mergingIterLevel {
 			if w.kind == hKSet || w.kind == hKMerge || w.kind == hKSetDel {
 				v = []byte{w.val}
 			}
-			kvs = append(kvs, base.InternalKV{K: base.MakeInternalKey([]byte{w.key}, w.seq, w.kind), V: base.MakeInPlaceValue(v)})
+			kvs = append(kvs, base.InternalKV{K: base.MakeInternalKey(hKeyBytes(w.key), w.seq, w.kind), V: base.MakeInPlaceValue(v)})
 		}
 		for i := 1; i < len(kvs); i++ { // sort by InternalCompare
 			for j := i; j > 0 && base.InternalCompare(cmp, kvs[j].K, kvs[j-1].K) < 0; j-- {
@@ -226,7 +233,7 @@ func hBuildLevels(h []hWrite, L int) []mergingIterLevel {
 			}
 		}
 		for _, d := range dels {
-			frag.Add(keyspan.Span{Start: []byte{d.key}, End: []byte{d.end},
+			frag.Add(keyspan.Span{Start: hKeyBytes(d.key), End: hKeyBytes(d.end),
 				Keys: []keyspan.Key{{Trailer: base.MakeTrailer(d.seq, hKRDel)}}})
 		}
 		frag.Finish()
@@ -243,6 +250,9 @@ func hNewIterator(levels []mergingIterLevel, readSeq base.SeqNum, opts *IterOpti
 	if opts != nil {
 		it.opts = *opts
 	}
+	if hUseLevelIter {
+		hWithLevelIter(levels, it.opts)
+	}
 	mi := &mergingIter{}
 	mi.init(&it.opts, &it.stats.InternalStats, base.DefaultComparer.Compare, base.DefaultComparer.Split, levels...)
 	mi.snapshot = readSeq
@@ -257,9 +267,13 @@ type hOut struct {
 
 func hCur(it *Iterator) hOut {
 	k := it.Key()
-	sym.Assert(len(k) == 1, "key-length")
+	sym.Assert(len(k) == len(hKeyPrefix)+1, "key-length")
+	if len(k) != len(hKeyPrefix)+1 {
+		return hOut{}
+	}
+	sym.Assert(bytes.Equal(k[:len(hKeyPrefix)], hKeyPrefix), "key-prefix")
 	p, n := hPack(it.Value())
-	return hOut{k[0], p, n}
+	return hOut{k[len(hKeyPrefix)], p, n}
 }
 
 // hCheckScan compares a complete scan (keys ascending) with the model over the alphabet.
@@ -281,4 +295,53 @@ func hCheckScan(out []hOut, h []hWrite, readSeq base.SeqNum, tag string) {
 		sym.Assert(found == want.present, tag+"-presence")
 		sym.Assert(sym.Implies(want.present, valueOK), tag+"-value")
 	}
+}
+
+// hWithLevelIter replaces the bottom level of levels (which must hold point
+// keys only) by the real levelIter over two "files": the level's sorted point
+// keys are cut at a symbolic position (never inside a user key's versions)
+// into two tables whose metadata carries the real bounds; the per-file
+// iterators are harness slice iterators. This puts level_iter.go (file
+// switching, bounds, seeks landing between files) under the same oracles.
+var hLevelIterCut = -1
+
+func hWithLevelIter(levels []mergingIterLevel, opts IterOptions) {
+	last := len(levels) - 1
+	src := levels[last].iter.(*hSliceIter)
+	kvs := src.kvs
+	cmp := base.DefaultComparer.Compare
+	// one cut position per run (the reference scan and the iterator under test share it)
+	if hLevelIterCut < 0 || hLevelIterCut > len(kvs) {
+		hLevelIterCut = sym.Choose("file-cut", len(kvs)+1)
+	}
+	cut := hLevelIterCut
+	if cut > 0 && cut < len(kvs) {
+		sym.Assume(kvs[cut-1].K.UserKey[0] != kvs[cut].K.UserKey[0]) // a user key's versions stay in one file
+	}
+	var files []*manifest.TableMetadata
+	byNum := map[base.TableNum][]base.InternalKV{}
+	for i, part := range [][]base.InternalKV{kvs[:cut], kvs[cut:]} {
+		if len(part) == 0 {
+			continue
+		}
+		m := &manifest.TableMetadata{TableNum: base.TableNum(i + 1), Size: 1}
+		m.ExtendPointKeyBounds(cmp, part[0].K.Clone(), part[len(part)-1].K.Clone())
+		m.InitPhysicalBacking()
+		files = append(files, m)
+		byNum[m.TableNum] = part
+	}
+	newIters := func(ctx context.Context, file *manifest.TableMetadata, o *IterOptions, _ internalIterOpts, kinds iterKinds) (iterSet, error) {
+		it := &hSliceIter{kvs: byNum[file.TableNum], i: -1}
+		if o != nil {
+			it.SetBounds(o.LowerBound, o.UpperBound)
+		}
+		return iterSet{point: it}, nil
+	}
+	ls := manifest.NewLevelSliceKeySorted(cmp, files)
+	li := &levelIter{}
+	li.init(context.Background(), opts, base.DefaultComparer, newIters, ls.Iter(), manifest.Level(6), internalIterOpts{})
+	li.initRangeDel(&levels[last])
+	levels[last].rangeDelIter = nil
+	levels[last].levelIter = li
+	levels[last].iter = li
 }
